@@ -16,11 +16,15 @@
 //
 //	case:  stack= kind= suite= pol= [pol2= cfg2=] cli=  K.e= K.msg= K.n= K.parse= K.c0= K.c1=
 //	       K.kx= K.cv= K.fin= [K.sig=]  (K = 1, 2)   [now0= now1=]
+//	       c0 / c1: the verdicts of certificate 0 / 1 EACH ON ITS OWN (okClient okClientOrServer
+//	       okAnyUsage) and the kind of its public key (s SM2, p other curve, r RSA, x other)
 //	obs :  K.srv=done|err K.resumed= K.peers= K.chains= K.req= K.cls= K.alert= K.cli=
 package main
 
 import (
+	"crypto"
 	"crypto/ecdsa"
+	"crypto/rand"
 	"crypto/rsa"
 	"errors"
 	"fmt"
@@ -93,6 +97,28 @@ func clientCerts(cli string) cliCerts {
 		return cliCerts{sig: s.CliSig, enc: s.CliExpEnc}
 	case "p256": // foreign key type (the real client cannot sign with it)
 		return cliCerts{sig: s.P256Sig, enc: s.P256Enc}
+	// mixed pairs: ONE of the two certificates is bad, in each way a certificate can be bad
+	// (the signing certificate matters on every suite, the encryption certificate on ECDHE)
+	case "sigoth-encok":
+		return cliCerts{sig: s.CliOthSig, enc: s.CliEnc}
+	case "sigexp-encok":
+		return cliCerts{sig: s.CliExpSig, enc: s.CliEnc}
+	case "sigcode-encok":
+		return cliCerts{sig: x.CodeSig, enc: s.CliEnc}
+	case "sigok-enccode":
+		return cliCerts{sig: s.CliSig, enc: x.CodeEnc}
+	case "sigoth-encexp": // both bad, differently
+		return cliCerts{sig: s.CliOthSig, enc: s.CliExpEnc}
+	// somebody else's certificate with a foreign key type, CertificateVerify by an unrelated
+	// SM2 key (the real client signs with whatever private key it is given)
+	case "rsa-otherkey":
+		return cliCerts{sig: x.RSASig, enc: s.CliEnc, sigKey: s.OtherSig.Key}
+	case "rsaoth-otherkey":
+		return cliCerts{sig: x.RSAOthSig, enc: s.CliEnc, sigKey: s.OtherSig.Key}
+	case "p256-otherkey":
+		return cliCerts{sig: s.P256Sig, enc: s.CliEnc, sigKey: s.OtherSig.Key}
+	case "ed-otherkey":
+		return cliCerts{sig: s.EdSig, enc: s.CliEnc, sigKey: s.OtherSig.Key}
 	}
 	return cliCerts{}
 }
@@ -244,7 +270,21 @@ func b01(b bool) string {
 	return "0"
 }
 
-// judgeCerts returns parse=, and the c0/c1 tokens: okClient okClientOrServer okAnyUsage keyOK
+// keyKind: s = SM2 curve, p = another curve, r = RSA, x = anything else
+func keyKind(pub any) string {
+	switch k := pub.(type) {
+	case *ecdsa.PublicKey:
+		if k.Curve == sm2.P256() {
+			return "s"
+		}
+		return "p"
+	case *rsa.PublicKey:
+		return "r"
+	}
+	return "x"
+}
+
+// judgeCerts returns parse=, and the c0/c1 tokens: okClient okClientOrServer okAnyUsage keyKind
 // for the certificate at index 0 and 1, validated like a server would (roots, time; the other
 // certificates of the list as intermediates: from index 1 for ECC, from index 2 for ECDHE).
 func judgeCerts(ders [][]byte, roots *smx509.CertPool, now time.Time, ecdhe bool) (parse string, toks [2]string) {
@@ -274,13 +314,8 @@ func judgeCerts(ders [][]byte, roots *smx509.CertPool, now time.Time, ecdhe bool
 			_, err := certs[i].Verify(smx509.VerifyOptions{Roots: roots, CurrentTime: now, Intermediates: inter, KeyUsages: us})
 			return err == nil
 		}
-		keyOK := false
-		switch certs[i].PublicKey.(type) {
-		case *ecdsa.PublicKey, *rsa.PublicKey:
-			keyOK = true
-		}
 		toks[i] = b01(v(smx509.ExtKeyUsageClientAuth)) + b01(v(smx509.ExtKeyUsageClientAuth, smx509.ExtKeyUsageServerAuth)) +
-			b01(v(smx509.ExtKeyUsageAny)) + b01(keyOK)
+			b01(v(smx509.ExtKeyUsageAny)) + keyKind(certs[i].PublicKey)
 	}
 	return
 }
@@ -414,13 +449,13 @@ func errClass(err error) string {
 
 // observation tokens of one connection
 type connObs struct {
-	err            error
-	resumed        bool
-	peers, chains  int
-	req            string // "-": the server never sent a full-handshake flight
-	alert          string
-	cliErr         error
-	panicked       string
+	err           error
+	resumed       bool
+	peers, chains int
+	req           string // "-": the server never sent a full-handshake flight
+	alert         string
+	cliErr        error
+	panicked      string
 }
 
 func (o connObs) tokens(k string) string {
@@ -524,10 +559,146 @@ func execute(s scen) (caseLine, obs string) {
 }
 
 var realClients = []string{"none", "trusted", "sigonly", "untrusted", "expired", "eku", "ekucode", "noeku",
-	"clionly", "wrongkey", "mixed", "mixedexp", "p256"}
+	"clionly", "wrongkey", "mixed", "mixedexp", "p256",
+	"sigoth-encok", "sigexp-encok", "sigcode-encok", "sigok-enccode", "sigoth-encexp",
+	"rsa-otherkey", "rsaoth-otherkey", "p256-otherkey", "ed-otherkey"}
 
 var scriptClients = []string{"s-good", "s-nocv", "s-cvotherkey", "s-cvothertr", "s-cvnocert", "s-cvnomsg",
-	"s-unreq", "s-nomsg", "s-onecert", "s-onecert-nocv", "s-edsig", "s-garbage", "s-badfin", "s-untrusted-nocv", "s-empty"}
+	"s-unreq", "s-nomsg", "s-onecert", "s-onecert-nocv", "s-edsig", "s-garbage", "s-badfin", "s-untrusted-nocv", "s-empty",
+	"s-cvgarbage", "s-cvemptysig",
+	"s-rsa-otherkey", "s-rsa-garbage", "s-rsa-emptysig", "s-rsa-nocv", "s-rsa-rsasig", "s-rsaoth-otherkey",
+	"s-p256-otherkey", "s-p256-garbage", "s-p256-nocv", "s-ed-garbage", "s-ed-nocv"}
+
+// ---------------------------------------------------------------------------
+// scripted clients, the plan shared by both stacks
+
+type scriptPlan struct {
+	sig, enc   *pki.Leaf // the pair the script is configured with (signs the CertificateVerify by default)
+	certs      [][]byte  // chain to send instead of the configured pair (nil: the pair)
+	emptyCerts bool      // send an empty certificate list
+	sendCert   int       // 0: iff requested, 1: always, -1: never
+	sendCV     int       // 0: iff requested, 1: always, -1: never
+	cvKey      crypto.PrivateKey
+	cvBody     func(transcriptHash []byte) []byte // CertificateVerify body to send instead of a generated one
+	cvBits     string                             // scenario knowledge: byLeafKey, overTranscript
+	finOK      bool
+}
+
+// cvFrame puts the 2-byte length in front of a signature.
+func cvFrame(sig []byte) []byte { return append([]byte{byte(len(sig) >> 8), byte(len(sig))}, sig...) }
+
+// a well-formed ASN.1 SEQUENCE{INTEGER r, INTEGER s} that is nobody's signature
+var garbageSig = []byte{0x30, 0x0a, 0x02, 0x03, 0x01, 0x02, 0x03, 0x02, 0x03, 0x04, 0x05, 0x06}
+
+func scriptPlanOf(cli string) scriptPlan {
+	st, x := pki.Std(), pki.C07()
+	pl := scriptPlan{sig: st.CliSig, enc: st.CliEnc, cvBits: "11", finOK: true}
+	garbage := func([]byte) []byte { return cvFrame(garbageSig) }
+	empty := func([]byte) []byte { return cvFrame(nil) }
+	foreign := func(leaf *pki.Leaf) { pl.certs = [][]byte{leaf.DER, pl.enc.DER} }
+	switch cli {
+	case "s-good":
+	case "s-nocv":
+		pl.sendCV = -1
+	case "s-untrusted-nocv":
+		pl.sig, pl.enc = st.CliOthSig, st.CliOthEnc
+		pl.sendCV = -1
+	case "s-cvotherkey":
+		pl.cvKey, pl.cvBits = st.OtherSig.Key, "01"
+	case "s-cvothertr":
+		key := pl.sig.Key
+		pl.cvBody, pl.cvBits = func([]byte) []byte { return signOther(key) }, "10"
+	case "s-cvgarbage":
+		pl.cvBody, pl.cvBits = garbage, "00"
+	case "s-cvemptysig":
+		pl.cvBody, pl.cvBits = empty, "00"
+	case "s-cvnocert":
+		pl.emptyCerts, pl.sendCV, pl.cvBits = true, 1, "01"
+	case "s-cvnomsg":
+		pl.sendCert, pl.sendCV, pl.cvBits = -1, 1, "01"
+	case "s-unreq":
+		pl.sendCert, pl.sendCV = 1, 1
+	case "s-nomsg":
+		pl.sendCert, pl.sendCV = -1, -1
+	case "s-onecert-nocv":
+		pl.certs, pl.sendCV = [][]byte{pl.sig.DER}, -1
+	case "s-onecert":
+		pl.certs = [][]byte{pl.sig.DER}
+	case "s-edsig": // Ed25519 certificate, CertificateVerify by the configured SM2 key
+		foreign(st.EdSig)
+		pl.cvBits = "01"
+	case "s-ed-garbage":
+		foreign(st.EdSig)
+		pl.cvBody, pl.cvBits = garbage, "00"
+	case "s-ed-nocv":
+		foreign(st.EdSig)
+		pl.sendCV = -1
+	case "s-garbage":
+		pl.certs, pl.cvBits = [][]byte{{0x30, 0x03, 0x01, 0x01, 0xff}, pl.enc.DER}, "01"
+	case "s-badfin":
+		pl.finOK = false
+	case "s-empty":
+		pl.emptyCerts, pl.sendCV = true, -1
+	// somebody else's certificate with an RSA key: whatever follows, nothing proves possession
+	case "s-rsa-otherkey":
+		foreign(x.RSASig)
+		pl.cvKey, pl.cvBits = st.OtherSig.Key, "01"
+	case "s-rsaoth-otherkey":
+		foreign(x.RSAOthSig)
+		pl.cvKey, pl.cvBits = st.OtherSig.Key, "01"
+	case "s-rsa-garbage":
+		foreign(x.RSASig)
+		pl.cvBody, pl.cvBits = garbage, "00"
+	case "s-rsa-emptysig":
+		foreign(x.RSASig)
+		pl.cvBody, pl.cvBits = empty, "00"
+	case "s-rsa-nocv":
+		foreign(x.RSASig)
+		pl.sendCV = -1
+	case "s-rsa-rsasig": // a genuine RSA signature by the certificate's own key over the transcript:
+		// made with the leaf key over the right transcript, yet not a signature of the suite's scheme
+		foreign(x.RSASig)
+		key := x.RSASig.Key.(*rsa.PrivateKey)
+		pl.cvBody = func(th []byte) []byte {
+			sig, err := rsa.SignPKCS1v15(rand.Reader, key, crypto.SHA256, th)
+			if err != nil {
+				sig = []byte{0}
+			}
+			return cvFrame(sig)
+		}
+	// a P-256 certificate (the type assertion to *ecdsa.PublicKey succeeds, the SM2 verification decides)
+	case "s-p256-otherkey":
+		foreign(st.P256Sig)
+		pl.cvKey, pl.cvBits = st.OtherSig.Key, "01"
+	case "s-p256-garbage":
+		foreign(st.P256Sig)
+		pl.cvBody, pl.cvBits = garbage, "00"
+	case "s-p256-nocv":
+		foreign(st.P256Sig)
+		pl.sendCV = -1
+	}
+	return pl
+}
+
+func (pl scriptPlan) decide(requested bool) (sendCert, sendCV bool) {
+	sendCert, sendCV = requested, requested
+	if pl.sendCert != 0 {
+		sendCert = pl.sendCert > 0
+	}
+	if pl.sendCV != 0 {
+		sendCV = pl.sendCV > 0
+	}
+	return
+}
+
+// transcriptHash is SM3 over the handshake messages the script has sent and received so far
+func transcriptHash(msgs [][]byte) []byte {
+	h := sm3.New()
+	for _, m := range msgs {
+		h.Write(m)
+	}
+	return h.Sum(nil)
+}
 
 func generate(o hx.Opts) []scen {
 	var out []scen
@@ -580,7 +751,8 @@ func generate(o hx.Opts) []scen {
 	if want("hist") {
 		clis := []string{"none", "trusted", "untrusted", "eku"}
 		if thorough {
-			clis = []string{"none", "trusted", "sigonly", "untrusted", "expired", "eku", "ekucode", "noeku", "mixed"}
+			clis = []string{"none", "trusted", "sigonly", "untrusted", "expired", "eku", "ekucode", "noeku", "mixed",
+				"sigoth-encok", "sigexp-encok", "sigok-enccode"}
 		}
 		for _, st := range stacks {
 			for _, su := range suites {
